@@ -43,6 +43,16 @@ Proof.
   - rewrite Z.abs_eq by lia. exact Hx.
 Qed.
 
+(* x * (a zero) is a zero *)
+Lemma fmul_zero_gen x z : ffinite x -> ffinite z -> FR z = 0%R -> ffinite (x * z)%float /\ FR (x * z)%float = 0%R.
+Proof.
+  unfold ffinite, FR. intros Fx Fz Rz. rewrite mul_equiv.
+  pose proof (Bmult_correct prec emax HP HM mode_NE (Prim2B x) (Prim2B z)) as H.
+  rewrite Rz, Rmult_0_r, round_0 in H by apply valid_rnd_N.
+  rewrite Rabs_R0, Rlt_bool_true in H by apply bpow_gt_0.
+  destruct H as (H1 & H2 & _). rewrite H2, Fx, Fz. auto.
+Qed.
+
 (* |x - y| < snap for x, y on the grid 2^e and a window 0 < snap <= 2^e : exactly when x = y *)
 Lemma snap_test_grid (snap x y : PrimFloat.float) (a b e : Z) :
   Dy x a e -> Dy y b e -> Z.abs (a - b) < 2 ^ 53 -> erange e ->
@@ -228,8 +238,43 @@ Notation n := (length (m1_nodes m)).
 Notation xs k := (nth k (m1_nodes m) 0%float).
 Notation row k := (nth k (m1_vars m) []).
 
-(* x on the grid 2^e of the node coordinates, the window no wider than the grid, x in cell j (the LAST such cell), cell j
-   of width 2^P 2^e and its data on the grid 2^g: every operation of the cell's line is exact *)
+(* x on the grid 2^e of the node coordinates, the window no wider than the grid: the loop returns the line of the LAST
+   cell j with X_j <= Xx <= X_{j+1} *)
+Lemma interp_grid_cell (snap x : PrimFloat.float) (X : nat -> Z) (Xx e : Z) (j : nat) :
+  wf1 m -> (j + 1 < n)%nat ->
+  (forall k, (k < n)%nat -> Dy (xs k) (X k) e) ->
+  (forall k, (k + 1 < n)%nat -> X k < X (k + 1)%nat) ->
+  Dy x Xx e ->
+  (forall k, (k < n)%nat -> Z.abs (X k - Xx) < 2 ^ 53) ->
+  ffinite snap -> (0 < FR snap <= bpow radix2 e)%R -> erange e ->
+  X j <= Xx <= X (j + 1)%nat -> (Xx = X (j + 1)%nat -> (j + 2 = n)%nat) ->
+  interp1 (A := AF) snap m x = Ok (lerpF (xs j) (xs (j + 1)) x (row j) (row (j + 1))).
+Proof.
+  intros Hwf Hj HX Hinc Dx Hb Fs Hs He Hin Hlast.
+  pose proof (incr_le X n Hinc) as Hmono.
+  apply (interp_loop_lastF m snap x j Hwf Hj).
+  - rewrite (in_cell_grid snap _ _ x (X j) (X (j + 1)%nat) Xx e); auto; try (apply HX; lia); try (apply Hb; lia).
+    destruct (Z.ltb_spec (X j) Xx), (Z.ltb_spec Xx (X (j + 1)%nat)), (Z.eqb_spec (X j) Xx),
+      (Z.eqb_spec (X (j + 1)%nat) Xx); try reflexivity; lia.
+  - intros i Hji Hi.
+    rewrite (in_cell_grid snap _ _ x (X i) (X (i + 1)%nat) Xx e); auto; try (apply HX; lia); try (apply Hb; lia).
+    pose proof (Hmono (j + 1)%nat i ltac:(lia) ltac:(lia)) as M1. pose proof (Hinc i Hi) as M2.
+    assert (Xx < X (j + 1)%nat) by (destruct (Z.eq_dec Xx (X (j + 1)%nat)) as [Eq|]; [specialize (Hlast Eq); lia|lia]).
+    destruct (Z.ltb_spec (X i) Xx), (Z.ltb_spec Xx (X (i + 1)%nat)), (Z.eqb_spec (X i) Xx),
+      (Z.eqb_spec (X (i + 1)%nat) Xx); try reflexivity; lia.
+Qed.
+
+Lemma lerpF_length xl xr x j : wf1 m -> (j + 1 < n)%nat ->
+  length (row j) = length (row (j + 1)) /\ length (lerpF xl xr x (row j) (row (j + 1))) = m1_nvars m.
+Proof.
+  intros Hwf Hj.
+  assert (Ll : length (row j) = length (row (j + 1))) by (rewrite !(row_lengthF m) by (auto; lia); reflexivity).
+  split; [exact Ll|].
+  unfold lerpF. rewrite map_length, combine_length. change (T AF) with PrimFloat.float in *.
+  rewrite <- Ll, Nat.min_id. apply (row_lengthF m); auto; lia.
+Qed.
+
+(* ... and if cell j has width 2^P 2^e and its data lie on the grid 2^g: every operation of the cell's line is exact *)
 Lemma interp_grid_dy (snap x : PrimFloat.float) (X F0 F1 : nat -> Z) (Xx e g P : Z) (j : nat) :
   wf1 m -> (j + 1 < n)%nat ->
   (forall k, (k < n)%nat -> Dy (xs k) (X k) e) ->
@@ -249,28 +294,45 @@ Lemma interp_grid_dy (snap x : PrimFloat.float) (X F0 F1 : nat -> Z) (Xx e g P :
       Dy (nth v r 0%float) (F0 v * 2 ^ P + (F1 v - F0 v) * (Xx - X j)) (g - P).
 Proof.
   intros Hwf Hj HX Hinc Dx Hb Fs Hs He Hin Hlast HP HP' HF0 HF1 HFb Hg Hq Hgp.
-  pose proof (incr_le X n Hinc) as Hmono.
-  rewrite (interp_loop_lastF m snap x j Hwf Hj).
-  - eexists; split; [reflexivity|].
-    assert (Ll : length (row j) = length (row (j + 1))) by (rewrite !(row_lengthF m) by (auto; lia); reflexivity).
-    split.
-    + unfold lerpF. rewrite map_length, combine_length. change (T AF) with PrimFloat.float in *.
-      rewrite <- Ll, Nat.min_id. apply (row_lengthF m); auto; lia.
-    + intros v Hv. rewrite nth_lerpF; [|exact Ll|rewrite (row_lengthF m) by (auto; lia); exact Hv].
-      destruct (HFb v Hv) as (B1 & B2 & B3).
-      apply (lerp_value_dy _ _ _ _ _ (X j) Xx (F0 v) (F1 v) e g P); auto.
-      * apply HX; lia.
-      * replace (X j + 2 ^ P) with (X (j + 1)%nat) by lia. apply HX; lia.
-      * lia.
-  - rewrite (in_cell_grid snap _ _ x (X j) (X (j + 1)%nat) Xx e); auto; try (apply HX; lia); try (apply Hb; lia).
-    destruct (Z.ltb_spec (X j) Xx), (Z.ltb_spec Xx (X (j + 1)%nat)), (Z.eqb_spec (X j) Xx),
-      (Z.eqb_spec (X (j + 1)%nat) Xx); try reflexivity; lia.
-  - intros i Hji Hi.
-    rewrite (in_cell_grid snap _ _ x (X i) (X (i + 1)%nat) Xx e); auto; try (apply HX; lia); try (apply Hb; lia).
-    pose proof (Hmono (j + 1)%nat i ltac:(lia) ltac:(lia)) as M1. pose proof (Hinc i Hi) as M2.
-    assert (Xx < X (j + 1)%nat) by (destruct (Z.eq_dec Xx (X (j + 1)%nat)) as [Eq|]; [specialize (Hlast Eq); lia|lia]).
-    destruct (Z.ltb_spec (X i) Xx), (Z.ltb_spec Xx (X (i + 1)%nat)), (Z.eqb_spec (X i) Xx),
-      (Z.eqb_spec (X (i + 1)%nat) Xx); try reflexivity; lia.
+  rewrite (interp_grid_cell snap x X Xx e j) by assumption.
+  destruct (lerpF_length (xs j) (xs (j + 1)) x j Hwf Hj) as [Ll Lr].
+  eexists; split; [reflexivity|]. split; [exact Lr|].
+  intros v Hv. rewrite nth_lerpF; [|exact Ll|rewrite (row_lengthF m) by (auto; lia); exact Hv].
+  destruct (HFb v Hv) as (B1 & B2 & B3).
+  apply (lerp_value_dy _ _ _ _ _ (X j) Xx (F0 v) (F1 v) e g P); auto.
+  - apply HX; lia.
+  - replace (X j + 2 ^ P) with (X (j + 1)%nat) by lia. apply HX; lia.
+  - lia.
+Qed.
+
+(* AT A NODE k that is not the last one, for ANY finite nodal data and ANY cell widths: the winning cell is cell k with
+   x - xl = 0, the result is  left + q * 0  = left as soon as the slopes q = (right - left)/(xr - xl) are finite *)
+Lemma interp_grid_node (snap x : PrimFloat.float) (X : nat -> Z) (e : Z) (k : nat) :
+  wf1 m -> (k + 1 < n)%nat ->
+  (forall i, (i < n)%nat -> Dy (xs i) (X i) e) ->
+  (forall i, (i + 1 < n)%nat -> X i < X (i + 1)%nat) ->
+  Dy x (X k) e ->
+  (forall i, (i < n)%nat -> Z.abs (X i - X k) < 2 ^ 53) ->
+  ffinite snap -> (0 < FR snap <= bpow radix2 e)%R -> erange e ->
+  (forall v, (v < m1_nvars m)%nat ->
+     ffinite (nth v (row k) 0%float) /\
+     ffinite ((nth v (row (k + 1)) 0 - nth v (row k) 0) / (xs (k + 1) - xs k))%float) ->
+  exists r, interp1 (A := AF) snap m x = Ok r /\ length r = m1_nvars m /\
+    forall v, (v < m1_nvars m)%nat ->
+      ffinite (nth v r 0%float) /\ FR (nth v r 0%float) = FR (nth v (row k) 0%float) /\
+      (FR (nth v (row k) 0%float) <> 0%R -> nth v r 0%float = nth v (row k) 0%float).
+Proof.
+  intros Hwf Hk HX Hinc Dx Hb Fs Hs He Hq.
+  pose proof (Hinc k Hk) as Hlt.
+  rewrite (interp_grid_cell snap x X (X k) e k) by (auto; lia).
+  destruct (lerpF_length (xs k) (xs (k + 1)) x k Hwf Hk) as [Ll Lr].
+  eexists; split; [reflexivity|]. split; [exact Lr|].
+  intros v Hv. rewrite nth_lerpF; [|exact Ll|rewrite (row_lengthF m) by (auto; lia); exact Hv].
+  destruct (Hq v Hv) as [FL Fq].
+  assert (D0 : Dy (x - xs k)%float (X k - X k) e) by (apply Dy_sub; auto; [apply HX; lia|rewrite Z.sub_diag; simpl; lia]).
+  destruct D0 as [F0 R0]. rewrite Z.sub_diag, Rmult_0_l in R0.
+  destruct (fmul_zero_gen _ _ Fq F0 R0) as [Fp Rp].
+  exact (fadd_zero_r _ _ FL Fp Rp).
 Qed.
 End InterpGrid.
 
@@ -368,3 +430,53 @@ Example ex_imeshF_values :
   interp1 (A := AF) Params.MESH_SNAP ex_imeshF 0.75%float = Ok [7%float] /\
   interp1 (A := AF) Params.MESH_SNAP ex_imeshF 1.75%float = Ok [2%float].
 Proof. repeat split; vm_compute; reflexivity. Qed.
+
+(* C19: at a node that is NOT the last one, with the code's window, node coordinates on a grid 2^e (e >= -23), ANY finite
+   nodal data and ANY cell widths: the nodal values are returned exactly as soon as the slopes of the cell to the
+   right are finite.  (At the LAST node the value is left + ((right-left)/w) * w, which is `right` only up to rounding
+   unless w is a power of two: interp_last_node_inexact below.) *)
+Lemma interp_node_exact_float_lemma (m : mesh1 AF PrimFloat.float) (x : PrimFloat.float) (X : nat -> Z) (e : Z) (k : nat) :
+  let n := length (m1_nodes m) in
+  let xs := fun i => nth i (m1_nodes m) 0%float in
+  let L := fun v => nth v (nth k (m1_vars m) []) 0%float in
+  let Rr := fun v => nth v (nth (k + 1) (m1_vars m) []) 0%float in
+  wf1 m -> (k + 1 < n)%nat ->
+  (forall i, (i < n)%nat -> ffinite (xs i) /\ FR (xs i) = IZR (X i) * bpow radix2 e) ->
+  (forall i, (i + 1 < n)%nat -> (X i < X (i + 1)%nat)%Z) ->
+  ffinite x -> FR x = FR (xs k) ->
+  (forall i, (i < n)%nat -> (Z.abs (X i - X k) < 2 ^ 53)%Z) ->
+  (-23 <= e <= 971)%Z ->
+  (forall v, (v < m1_nvars m)%nat -> ffinite (L v) /\ ffinite ((Rr v - L v) / (xs (k + 1)%nat - xs k))%float) ->
+  exists r, interp1 (A := AF) Params.MESH_SNAP m x = Ok r /\ length r = m1_nvars m /\
+    forall v, (v < m1_nvars m)%nat ->
+      ffinite (nth v r 0%float) /\ FR (nth v r 0%float) = FR (L v) /\
+      (FR (L v) <> 0 -> nth v r 0%float = L v).
+Proof.
+  intros n xs L Rr Hwf Hk HX Hinc Fx Rx Hb He Hq.
+  destruct (mesh_snap_window e ltac:(lia)) as [Fs Hs].
+  assert (Dx : Dy x (X k) e).
+  { split; [exact Fx|]. change (B2R (Prim2B x)) with (FR x). rewrite Rx. apply (HX k). lia. }
+  exact (interp_grid_node m Params.MESH_SNAP x X e k Hwf Hk HX Hinc Dx Hb Fs Hs ltac:(unfold erange; lia) Hq).
+Qed.
+
+(* integer nodes 0, 49 and integer data 0, 1: at the first node the value is exact, at the LAST node it is not:
+   0 + ((1 - 0)/49) * 49 = 1 - 2^-53 *)
+Definition ex_imesh49 : mesh1 AF PrimFloat.float := mkM1 (A := AF) 1 [0; 49]%float [[0]; [1]]%float.
+Example interp_last_node_inexact :
+  interp1 (A := AF) Params.MESH_SNAP ex_imesh49 0%float = Ok [0%float] /\
+  exists r, interp1 (A := AF) Params.MESH_SNAP ex_imesh49 49%float = Ok [r] /\
+            PrimFloat.eqb r 1%float = false /\ PrimFloat.ltb r 1%float = true.
+Proof. split; [vm_compute; reflexivity|]. eexists. split; [vm_compute; reflexivity|]. split; vm_compute; reflexivity. Qed.
+
+Definition ex_i49X (k : nat) : Z := nth k [0; 49]%Z 0%Z.
+Lemma ex_imesh49_wf : wf1 ex_imesh49.
+Proof. split; [reflexivity|repeat constructor]. Qed.
+Lemma ex_imesh49_nodes i : (i < 2)%nat ->
+  ffinite (nth i (m1_nodes ex_imesh49) 0%float) /\
+  FR (nth i (m1_nodes ex_imesh49) 0%float) = IZR (ex_i49X i) * bpow radix2 0.
+Proof. intros Hk. do 2 (destruct i as [|i]; [apply Dy_unfold; cbn; dyw|]). lia. Qed.
+Lemma ex_imesh49_slopes v : (v < 1)%nat ->
+  ffinite (nth v (nth 0 (m1_vars ex_imesh49) []) 0%float) /\
+  ffinite ((nth v (nth (0 + 1) (m1_vars ex_imesh49) []) 0 - nth v (nth 0 (m1_vars ex_imesh49) []) 0)
+           / (nth (0 + 1) (m1_nodes ex_imesh49) 0 - nth 0 (m1_nodes ex_imesh49) 0))%float.
+Proof. intros Hv. destruct v as [|v]; [split; vm_compute; reflexivity|lia]. Qed.
